@@ -146,6 +146,10 @@ FIXED = [
     ("C04", "e7f3d77", "`var a=[]; a.length=1e9` left eval as the host's MemoryError: lengths up to 2**32-1 were allocated at once"),
     ("C17", "8c86225", "`var a=new Uint8Array(2); a.set([1,2,3], 1)` wrote what fitted and dropped the rest; a negative or too large offset was ignored (ECMAScript: RangeError, nothing written)"),
     ("C18", "3476877", "`1/Number('-0')`, `1/(+'-0')` and `1/JSON.parse('-0')` were +Infinity: the text went through int(), which has no negative zero"),
+    ("C10", "910eb38", "`var r=/$/my; r.lastIndex=100; r.test('abc')` (also /\\b/y, /\\B/y) left eval as the host's IndexError: a sticky regex was run from a lastIndex beyond the string"),
+    ("C20", "910eb38", "a sticky regex with lastIndex beyond the end of the string raised a host IndexError instead of failing and resetting lastIndex"),
+    ("C01", "cc97ad1", "`/(?<=b)/.test('a'.repeat(20000))` ran 100 s under time_limit=0.5: each run of the matcher counted its steps from zero, and the runs per start position never reached the poll interval"),
+    ("C10", "cc97ad1", "lookbehind and search over long subjects were never polled: unbounded work under any time limit"),
     ("C16", "7e34772", "`'a,b,c'.split(',', -Infinity)` returned 3 pieces and a limit of 2**32+1 all of them (ToUint32: 0 and 1); `'abcabc'.lastIndexOf('c', 'x')` was -1 (a NaN position means the end)"),
     ("C17", "7e34772", "`[1,2,1].lastIndexOf(1, undefined)` was 2 (a fromIndex that is present converts to 0: the answer is 0)"),
 ]
